@@ -311,6 +311,11 @@ func (r *Recorder) flushFail() {
 		return
 	}
 	dir := filepath.Join(Root(), "replays", r.ID)
+	if d := os.Getenv("VERIF_REPLAY_DIR"); d != "" {
+		// runs against a scratch copy of the repository (mutation testing of
+		// the checks) keep their replays out of /verif/replays
+		dir = filepath.Join(d, r.ID)
+	}
 	os.MkdirAll(dir, 0o755)
 	name := fmt.Sprintf("%s-%016x.json", r.Check, Hash(string(pf.caseJSON)))
 	path := filepath.Join(dir, name)
